@@ -452,6 +452,54 @@ def u_continue(cfg):
     fn = funcs_for(cfg); fn[SEL + '.GreedySelector._continue_greedy_search'] = base_continue_contract()
     return Unit(cfg.name + '.continue', body, loops={(q, 0): LoopContract(inv)}, funcs=fn, functions=[q])
 
+
+# ------------------------------------------------------------------ C08 (b) for the CUR family: one search step is a function of the state modulo buffer capacity
+def u_step_functional(cfg):
+    def body(I):
+        ctx = setup(I, cfg); me1 = ctx['me']; N = ctx['N']; o1 = I.O(me1); k0 = ctx['k0']
+        # a second selector in the same abstract state (same residual, scores, counts, recorded prefix) with another buffer capacity
+        cap2 = I.fresh('capacity2', IntS); I.assume(And(cap2 > k0, cap2 <= N))
+        me2 = I.instantiate(ctx['cls'], [], dict(recompute_every=cfg.recompute, k=cfg.k, tolerance=ctx['tol'], **({'mixing': I.attr(me1, 'mixing')} if cfg.family == 'PCovCUR' else {})))
+        o2 = I.O(me2)
+        o2.attrs['_axis'] = cfg.axis; o2.attrs['n_selected_'] = k0; o2.attrs['first_score_'] = None
+        o2.attrs['selected_idx_'] = I.fresh_arr('idx2', (cap2,), IntS)
+        shp = [ctx['n'], ctx['m']]; shp[cfg.axis] = cap2
+        o2.attrs['X_selected_'] = ML.fresh_mat(I, 'Xsel2', tuple(shp))
+        A1 = I.A(o1.attrs['X_current_']); o2.attrs['X_current_'] = ML.mk(I, ML.mat_of(I, o1.attrs['X_current_']), A1.shape)
+        P1 = I.A(o1.attrs['pi_']); o2.attrs['pi_'] = I.new_arr(ArrVal(P1.shape, P1.elem, P1.sort))
+        if cfg.with_y and cfg.axis == 0: o2.attrs['y_selected_'] = ML.fresh_mat(I, 'ysel2', (cap2, 1))
+        if cfg.family == 'PCovCUR':
+            o2.attrs['X_ref_'] = ctx['X']; o2.attrs['y_ref_'] = ctx['y']
+            Y1 = I.A(o1.attrs['y_current_']); o2.attrs['y_current_'] = ML.mk(I, ML.mat_of(I, o1.attrs['y_current_']), Y1.shape)
+        i1, i2 = I.A(o1.attrs['selected_idx_']).elem, I.A(o2.attrs['selected_idx_']).elem
+        t = Int('t!sf')
+        I.assume(ForAll([t], Implies(And(0 <= t, t < k0), i1(t) == i2(t))))
+        if cfg.axis == 0 and cfg.family == 'PCovCUR':
+            # the selected rows recorded so far agree (they are rows of the same data)
+            xs1, xs2 = I.A(o1.attrs['X_selected_']).elem, I.A(o2.attrs['X_selected_']).elem; c = Int('c!sf')
+            I.assume(ForAll([t, c], Implies(And(0 <= t, t < k0), xs1(t, c) == xs2(t, c))))
+            ys1, ys2 = I.A(o1.attrs['y_selected_']).elem, I.A(o2.attrs['y_selected_']).elem
+            I.assume(ForAll([t], Implies(And(0 <= t, t < k0), ys1(t, IntVal(0)) == ys2(t, IntVal(0)))))
+        picks = []
+        for me in (me1, me2):
+            new = I.call_func(I.find_method(ctx['cls'], '_get_best_new_selection'), [me, Bound(me, I.find_method(ctx['cls'], 'score')), ctx['X'], ctx['y']], {})
+            picks.append(tz(new))
+        I.ob('relational[C08]:one-search-step-picks-the-same-item-from-equal-abstract-states', picks[0] == picks[1], kind='relational')
+        I.assume(picks[0] == picks[1])
+        for me, nw in ((me1, picks[0]), (me2, picks[0])):
+            I.call_func(I.find_method(ctx['cls'], '_update_post_selection'), [me, ctx['X'], ctx['y'], nw], {})
+        o1, o2 = I.O(me1), I.O(me2)
+        j = I.fresh('j', IntS); I.assume(And(0 <= j, j < N))
+        I.ob('relational[C08]:one-search-step-maps-equal-abstract-states-to-equal-abstract-states:n_selected_', tz(o1.attrs['n_selected_']) == tz(o2.attrs['n_selected_']), kind='relational')
+        I.ob('relational[C08]:...:selected_idx_', I.A(o1.attrs['selected_idx_']).elem(k0) == I.A(o2.attrs['selected_idx_']).elem(k0), kind='relational')
+        I.ob('relational[C08]:...:X_current_', ML.mat_of(I, o1.attrs['X_current_']) == ML.mat_of(I, o2.attrs['X_current_']), kind='relational')
+        if cfg.family == 'CUR' or cfg.recompute == 0:
+            I.ob('relational[C08]:...:pi_', I.A(o1.attrs['pi_']).elem(j) == I.A(o2.attrs['pi_']).elem(j), kind='relational')
+        # PCov-CUR with refresh: the refreshed scores depend on y_current_, which is recomputed from the selection BUFFERS (zero-padded to the capacity in the feature
+        # direction, a row prefix in the sample direction): equal for equal abstract states only up to that padding (a least-squares fit ignores zero columns) —
+        # not derivable without extensionality; covered by the bounded runtime side (warm-start chains against cold fits)
+    return Unit(cfg.name + '.step-functional', body, funcs=funcs_for(cfg), functions=[SEL + '._' + cfg.family + '._update_post_selection', SEL + '.GreedySelector._get_best_new_selection'])
+
 # ------------------------------------------------------------------ start of a cold search
 def u_init(cfg):
     def body(I):
